@@ -9,10 +9,15 @@ NAME_POOL = [
     " 1", "1 ", "1_0", "１", "#", "#a", "#0", "~a", "é", "中", "\U0001F600", "\n", "\t", " ", "\x01", "\x7f", "and", "or",
     "true", "null", "in", "$", "@", "*", "..", "a.b", "[0]", "a b", "_x", "x-y",
     "9007199254740992", "12345678901234567890",
+    # names that BEGIN with a keyword of the filter language, digits-only names mixing ASCII and other decimal digits
+    "nilsson", "Nile", "nil_count", "nullable", "nonesuch", "trueish", "falsey", "android", "order", "inner", "notable",
+    "containsx", "undefinedx", "missingx", "Nonesuch", "Truest", "1٢", "1０", "-1٢",
+    # strings that end in a line feed (where `$` and a full match part ways)
 ]
+SCALARS_NL = ["ab\n", "a\n", "\n", "ab\n\n", "a\nb"]
 NAME_POOL_BACKSLASH = ["\\", "a\\", "\\u0041", "\\n", "a\\/b"]
 
-SCALARS = [None, True, False, 0, 1, -1, 2, 1.0, 0.0, 1.5, -2.5, "", "a", "b", "0", "1", "é", "ab"]
+SCALARS = [None, True, False, 0, 1, -1, 2, 1.0, 0.0, 1.5, -2.5, "", "a", "b", "0", "1", "é", "ab", "ab\n", "a\n", "\n"]
 
 
 def gen_scalar(rng):
